@@ -15,7 +15,7 @@ namespace {
 using namespace BaseGraph;
 
 struct Counters {
-    uint64_t bigMultCtor = 0, remutated = 0, graphs = 0, iterSteps = 0, ctorChecks = 0, copies = 0, filesWritten = 0, emptyGraphs = 0, zeroVertex = 0;
+    uint64_t assignments = 0, bigMultCtor = 0, remutated = 0, graphs = 0, iterSteps = 0, ctorChecks = 0, copies = 0, filesWritten = 0, emptyGraphs = 0, zeroVertex = 0;
     ObsCounters oc;
 } C;
 
@@ -220,6 +220,29 @@ template <class G> void c09(Reporter &R, const std::string &cls, const GraphSpec
             else if (eq3(c, g) || eq3(a, g)) e = "copy: mutated copy still == source";
         }
         if (e.empty()) e = checkEdgesOnly(g, x, C.oc);
+        if (e.empty()) {
+            // assignment onto graphs that already hold something else (from the source, from a temporary), construction from a temporary
+            G t1(3);
+            if constexpr (IsMulti<G>::value) t1.addMultiedge(0, 1, 4);
+            else t1.addEdge(0, 1, 7.5);
+            G t2(t1);
+            t1 = g;
+            t2 = G(g);
+            G scratch(g);
+            G t3(std::move(scratch));
+            ++C.assignments;
+            const G *all[] = {&t1, &t2, &t3};
+            const char *how[] = {"assigned over a graph with other edges", "assigned from a temporary over a graph with other edges", "constructed from a temporary"};
+            for (int k = 0; k < 3 && e.empty(); ++k) {
+                if (!eq3(*all[k], g)) e = std::string("copy: graph ") + how[k] + " != source";
+                if (e.empty()) e = checkEdgesOnly(*all[k], x, C.oc);
+                if (e.empty()) {
+                    if constexpr (IsMulti<G>::value) { if (all[k]->getTotalEdgeNumber() != g.getTotalEdgeNumber()) e = "getTotalEdgeNumber differs from the source's"; }
+                    else { if (all[k]->getTotalWeight() != g.getTotalWeight()) e = "getTotalWeight differs from the source's"; }
+                }
+                if (!e.empty() && e.find("copy:") != 0) e = std::string("copy: graph ") + how[k] + ": " + e;
+            }
+        }
         if (!e.empty()) { R.violation(cls + "/copy/" + obs(e), e + " on " + s.str()); return; }
     } catch (std::exception &ex) {
         R.violation(cls + "/c09/threw", std::string("threw ") + ex.what() + " on " + s.str());
@@ -234,6 +257,7 @@ void flush(Reporter &R) {
     R.count("constructor_checks", C.ctorChecks);
     R.count("constructor_lists_with_a_multiplicity_of_2_to_the_31_or_more", C.bigMultCtor);
     R.count("copy_checks", C.copies);
+    R.count("assignments_over_a_non_empty_graph_and_from_temporaries", C.assignments);
     R.count("files_written", C.filesWritten);
     R.count("graphs_without_edges", C.emptyGraphs);
     R.count("graphs_with_zero_vertices", C.zeroVertex);
